@@ -441,7 +441,7 @@ impl fmt::Display for RangeValue<'_> {
       RangeValue::IDENT(ident, _) => write!(f, "{}", ident),
       RangeValue::INT(i) => write!(f, "{}", i),
       RangeValue::UINT(i) => write!(f, "{}", i),
-      RangeValue::FLOAT(fl) => write!(f, "{}", fl),
+      RangeValue::FLOAT(fl) => write!(f, "{:?}", fl),
     }
   }
 }
@@ -481,7 +481,8 @@ impl fmt::Display for Value<'_> {
       Value::TEXT(text) => write!(f, "\"{}\"", text),
       Value::INT(i) => write!(f, "{}", i),
       Value::UINT(ui) => write!(f, "{}", ui),
-      Value::FLOAT(float) => write!(f, "{}", float),
+      // `{:?}` keeps a fraction or exponent (1.0, 1e16), so the text stays a float literal
+      Value::FLOAT(float) => write!(f, "{:?}", float),
       Value::BYTE(bv) => write!(f, "{}", bv),
     }
   }
